@@ -199,6 +199,9 @@ void fb_read_str(fb_t a, const char *str, size_t len, uint_t radix) {
 		if (bn_bits(t) > RLC_FB_BITS) {
 			RLC_THROW(ERR_NO_BUFFER);
 		}
+		if (bn_sign(t) == RLC_NEG) {
+			RLC_THROW(ERR_NO_VALID);
+		}
 
 		fb_zero(a);
 		dv_copy(a, t->dp, t->used);
